@@ -85,9 +85,14 @@ class Ctx:
         from . import runner
         if self.cover:
             plan = dict(plan, cover=True)
-        rec = runner.run_forked(plan, real_timeout)
-        if hang_is_outcome and rec.get('outcome') == 'HARNESS-TIMEOUT':
-            # the tool kept the processor for the whole real-time allowance without making a single simulated call: a campaign
+        if hang_is_outcome:
+            # judged on the processor time the child used, not on the wall clock, so that a loaded machine changes nothing; the
+            # wall-clock allowance (8x) only bounds the harness and ends in a harness error, never in a verdict
+            rec = runner.run_forked(plan, real_timeout * 8, cpu_timeout=real_timeout)
+        else:
+            rec = runner.run_forked(plan, real_timeout)
+        if hang_is_outcome and rec.get('cpu_exceeded'):
+            # the tool kept the processor for the whole allowance without making a single simulated call: a campaign
             # that is about termination judges this as an outcome of the run instead of discarding the case
             rec = {'status': None, 'outcome': 'REAL_TIME_EXCEEDED', 'stdout': '', 'stderr': '', 'real_timeout_s': real_timeout}
         return self._account(rec)
